@@ -160,7 +160,15 @@ def _shape_grid(pid):
 
 
 GRIDS["C08"] = _shape_grid("C08")
-GRIDS["C13"] = _shape_grid("C13")
+
+
+@grid("C13")
+def g_c13(tier, seed):
+    cnt = []
+    fails = rt.rt_shapes_grid(count=cnt) + rt.rt_argcheck_grid(count=cnt)
+    return dict(evaluations=sum(cnt), distinct_nontrivial=sum(cnt),
+                rule="real bijections (leaves, Chain, Invert, Vmap, Reshape, rank-0 and rank-1 cond_shapes) x four methods x wrong shapes NumPy would broadcast (extra leading axis, trailing size-1 axis, dropped axis, transposed, scalar) -> must raise; declared shapes must be accepted; plus the combinator shape lattice of C08",
+                samples=[dict(obj="AdditiveCondition(shape (), cond ())", bad="condition.shape=(1,)")], failures=fails[:5], errors=[])
 
 
 def main():
